@@ -51,7 +51,13 @@ structure OpenMap (φ : Nat → Nat) (m m' : Mol) : Prop where
   closed : ∀ x y' e', x < m.natoms → m'.bondBetween (φ x) y' = some e' → ∃ y, y < m.natoms ∧ y' = φ y
   double : ∀ x, x < m.natoms → ((∃ e ∈ m'.bonds, e.touches (φ x) = true ∧ e.kind = .double) ↔
       (∃ e ∈ m.bonds, e.touches x = true ∧ e.kind = .double))
-  rings : ∀ x, x < m.natoms → ringsThrough m' (φ x) = (ringsThrough m x).map (List.map φ)
+  /-- the rings through an atom: the atom is on a ring of one graph iff its image is on a ring of the other, … -/
+  onRing : ∀ x, x < m.natoms → (OnRing m' (φ x) ↔ OnRing m x)
+  /-- … with the same ring sizes, … -/
+  ringSize : ∀ x, x < m.natoms → ∀ cn : CN,
+    ((∃ r ∈ m'.rings, φ x ∈ r ∧ CNHolds cn r.length) ↔ (∃ r ∈ m.rings, x ∈ r ∧ CNHolds cn r.length))
+  /-- … and the same number of rings (how the rings are listed and where each ring's atom list starts does not matter) -/
+  nRing : ∀ x, x < m.natoms → (ringsThrough m' (φ x)).length = (ringsThrough m x).length
 
 /-- `m'` is `m` with every atom `i` renamed `π i`: the atom at `π i` of `m'` is the atom at `i` of `m`, the bonds are
 the renamed bonds **in any order** (same begin/end atoms), the rings are the renamed rings **in the same order**.  `π` is a bijection of the naturals that
